@@ -11,6 +11,11 @@ NOTE = ("claims are over the reals within the bounds stated in the evidence file
         "classes and term transformations of /verif/vf (validated each run against the real code on floats), stub contracts listed in the evidence")
 
 CHECKS = {
+    "C16": ("5 C16", "fit / find_best_fit / objective / PervaporationFunction and fit_vle's selection executed on 3 (thorough 4) symbolic "
+                     "measurement points with scipy.optimize.minimize as a deterministic uninterpreted function of the objective it is handed: "
+                     "caller data untouched (identity + length + elements) on every coincidence pattern of temperatures, repeated call = same "
+                     "answer, full (n, m) grid, returned loss minimal (losses named at the source, linear order query) and equal to the squared "
+                     "error on caller data, best-of over 4 (thorough 9) VLE methods, value and scaling formulas up to order 2 (thorough 3)"),
     "C05": ("5 C05", "two non-ideal process models (N = 3, thorough 4) and the non-ideal curve with the best-fit search as a recording stub "
                      "returning symbolic coefficient arrays, 1 and 2 curves, with / without initial permeances, both initial bases: search called "
                      "once per component on that component's measurements; returned fits = search results or their Arrhenius re-scaling "
